@@ -48,3 +48,58 @@ Inductive stage_a_result := AOk (ts : toks) | AErr (e : error) | APanic (site : 
 Definition run_stage_a (r : raw_item) (s : item_src) : stage_a_result :=
   match stage_a r s with Ok ts => AOk (flatten ts) | Err e => AErr e | Panic p => APanic p end.
 Definition run_strip (r : raw_item) (s : item_src) : toks := flatten (strip_item r s).
+
+(* ---- decision cells: which template / branch of the generator an impl exercised (coverage accounting) ---- *)
+Definition rest_cell (r : rest) : string :=
+  match r with RTrue => "true" | REqual => "equal" | RUnreachableUnchecked => "unchecked" | RUnreachablePanic => "panic" end.
+Definition any_true (l : list bool) : string := if existsb (fun x => x) l then "inc" else "noinc".
+Definition ty_cell (ty : option repr) : string := match ty with Some r => repr_name r | None => "isize" end.
+Definition strategy_cell (s : strategy) : string :=
+  match s with
+  | SCast ViaCopy ty v => "cast-copy-" +++ ty_cell ty +++ (if isSome v then "-validate" else "")
+  | SCast ViaClone ty v => "cast-clone-" +++ ty_cell ty +++ (if isSome v then "-validate" else "")
+  | SConstFn ty v tbl =>
+      "constfn-" +++ ty_cell ty +++ (if v then "-validate" else "") +++
+      (if existsb (fun e => match e with DPlus _ _ _ => true | _ => false end) tbl then "-plus" else "") +++
+      (if existsb (fun e => match e with DExplicit _ _ => true | _ => false end) tbl then "-explicit" else "")
+  | SPtrRead r => "ptr-" +++ repr_name r
+  | SIntrinsic => "intrinsic"
+  end.
+Definition match_cell (m : option ord_match) : string :=
+  match m with None => "nobody" | Some m => "body-" +++ rest_cell (om_rest m) end.
+Definition ord_cell (o : ord_body) : string :=
+  match o with
+  | ONone => "none" | OViaOrd => "viaord" | OEqual => "equal" | OMatch _ => "match"
+  | OSingle _ eq => "single-" +++ match_cell eq
+  | OMulti inc be s => "multi-" +++ any_true inc +++ "-" +++ match_cell be +++ "-" +++ strategy_cell s
+  end.
+Definition body_cell (b : body) : string :=
+  match b with
+  | BClone CCopy => "clone:copy" | BClone CUnion => "clone:union" | BClone (CMatch _) => "clone:match"
+  | BCopy => "copy"
+  | BDebug arms => "debug:" +++ (if existsb da_non_exhaustive arms then "nonexhaustive" else "exhaustive")
+  | BDefault ctors => "default:" +++ (match emitted ctors with [(O, _)] => "first" | [_] => "later" | _ => "bad" end)
+  | BEq asserts => "eq:" +++ (if existsb (fun a : arm => match a with [] => false | _ => true end) asserts then "asserts" else "none")
+  | BHash arms => "hash:" +++ (if existsb ha_disc arms then "enum" else "struct")
+  | BPartialEq EqFalse => "peq:false" | BPartialEq EqTrue => "peq:true"
+  | BPartialEq (EqDisc _ inc r) => "peq:disc-" +++ any_true inc +++ "-" +++ rest_cell r
+  | BPartialEq (EqDiscAllEmpty inc) => "peq:allempty-" +++ any_true inc
+  | BPartialEq (EqMatch _) => "peq:match"
+  | BPartialOrd o => "pord:" +++ ord_cell o
+  | BOrd o => "ord:" +++ ord_cell o
+  | BZeroize ZEmpty => "z:empty"
+  | BZeroize (ZMatch arms) =>
+      "z:match" +++ (if existsb (fun a => match a with ZWild => true | _ => false end) arms then "-wild" else "") +++
+      (if existsb (fun a => match a with ZFields fs => existsb snd fs | _ => false end) arms then "-fqs" else "") +++
+      (if existsb (fun a => match a with ZFields fs => existsb (fun q : nat * bool => negb (snd q)) fs | _ => false end) arms then "-method" else "")
+  | BDrop DrEmpty => "drop:empty"
+  | BDrop (DrDelegate arms) => "drop:delegate-" +++ (match filter (fun x : bool => x) arms with [] => "0" | [_] => "1" | _ => "many" end)
+  | BDrop (DrMatch arms) => "drop:match" +++ (if existsb (fun a => match a with DWild => true | _ => false end) arms then "-wild" else "")
+  | BPanic _ => "panic"
+  end.
+
+Definition run_cells (c : cfg) (r : raw_item) : list string :=
+  match from_input c r with
+  | Ok i => flat_map (fun w => map (fun dt => body_cell (gen_body c (in_item i) w dt)) (dw_traits w)) (in_dws i)
+  | _ => []
+  end.
